@@ -90,16 +90,21 @@ class Result:
                 "generated_obligations": self.generated_obligations}
 
 
-def lib_setup():
-    """Import the library under test quietly. Returns the settings module."""
+def lib_setup(xs_check=False):
+    """Import the library under test quietly. Returns the settings module.
+    xs_check=True keeps the library's default ENABLE_XS_CHECK_INTEGRATION = True, so that a save runs the XS collection
+    step (`validate_scenario_xs` -> `_get_scenario_xs`) like it does for users; the external xs-check BINARY is only started when
+    the scenario holds XS code, which the harnesses that use this mode never create (the binary is not executable in this
+    sandbox)."""
     if REPO not in sys.path:
         sys.path.insert(0, REPO)
     from AoE2ScenarioParser import settings
     settings.PRINT_STATUS_UPDATES = False
-    try:
-        settings.ENABLE_XS_CHECK_INTEGRATION = False
-    except Exception:
-        pass
+    if not xs_check:
+        try:
+            settings.ENABLE_XS_CHECK_INTEGRATION = False
+        except Exception:
+            pass
     return settings
 
 
